@@ -290,6 +290,13 @@ def run_world(case, sdk, checks):
                     if keytuple(t.schema, o["item"]) != key:
                         w.flag(i, "stored-key-differs", "the item retrievable under %s carries other key attributes" % (key,), impl=o)
             continue
+        if name in ("query", "pages") and op.get("badKeyCond"):
+            # a condition that is not a key condition: DynamoDB rejects the request; what a read that
+            # accepts it returns is judged by no other check
+            if "restrictions" in checks and k in ("search", "pages", "pagesErr"):
+                w.flag(i, "key-condition-shape", "Query accepted a KeyConditionExpression that is not an equality on the partition key "
+                       "optionally joined by one sort-key condition (%s)" % op["badKeyCond"], impl=o)
+            continue
         if name == "query":
             if k == "search":
                 check_search(w, i, t, op, o, checks)
